@@ -73,6 +73,96 @@ def expected_ct(name, always):
     return MIME.get(ext, 'application/octet-stream').encode()
 
 
+def server_part(ctx):
+    """The server's `directory` routes end to end: humphrey_server::server::main started from a configuration text whose
+    routes serve a generated tree; raw request targets go over loopback (request parser -> routing -> prefix stripping ->
+    try_find_path -> file). Expected: the routing rule picks the route, the StaticFs model answers for it."""
+    import re
+    rng = ctx.rng
+    thorough = ctx.tier == 'thorough'
+    ntrees = 60 if thorough else 6
+    glob = lambda p, t: re.fullmatch(''.join('.*' if c == '*' else re.escape(c) for c in p), t, re.S) is not None
+    ROUTES = ['/static/*', '/st*', '/files/*', '/*']
+    lines, meta = [], []
+    for k in range(ntrees):
+        desc, files, dirs, canary = gen_tree(rng, 1000 + k)
+        routes = rng.sample(ROUTES[:3], rng.randint(0, 3)) + ['/*']
+        conf = '\n'.join(['server {', '  address "127.0.0.1"', '  port 8080', '  threads 2', '  log {', '    level "error"', '    console false', '  }'] +
+                         sum([['  route %s {' % r, '    directory "@FIX@/www"', '  }'] for r in routes], []) + ['}']) + '\n'
+        fixtures = ['%s:%s' % (hx('www/' + f), hx(c)) for f, c in files.items()] + ['%s:d' % hx('www/' + d) for d in dirs] + \
+                   ['%s:d' % hx('www'), '%s:%s' % (hx('secret.txt'), hx(canary)), '%s:%s' % (hx('wwwx/other.txt'), hx(canary))]
+        targets = []
+        for f in files:
+            enc = '/'.join(urllib.parse.quote(seg, safe='') for seg in f.split('/'))
+            for pre in ('/', '/static/', '/st', '/files/'):
+                targets.append(pre + enc)
+        for d in list(dirs) + ['']:
+            enc = '/'.join(urllib.parse.quote(seg, safe='') for seg in d.split('/')) if d else ''
+            targets += ['/' + enc, '/' + enc + '/', '/static/' + enc] if d else ['/', '/static/']
+        names = list(files.keys()) + list(dirs) + ['secret.txt', 'wwwx', 'other.txt', 'www']
+        for _ in range(60 if thorough else 40):
+            segs = []
+            for _ in range(rng.randint(1, 5)):
+                if rng.random() < 0.45:
+                    segs.append(rng.choice(SEGS))
+                else:
+                    n = rng.choice(names).split('/')[-1] if names else 'x'
+                    segs.append(urllib.parse.quote(n, safe=''))
+            t = rng.choice(['/', '/static/', '/files/', '/st', '//']) + '/'.join(segs)
+            targets.append(t)
+        for nsl in (1, 2, 3):
+            targets.append('/' * nsl + '@BASE@/secret.txt')
+            targets.append('/static' + '/' * nsl + '@BASE@/wwwx/other.txt')
+        # what a request line can carry: no space, control character, '?' or '#'
+        targets = [t for t in dict.fromkeys(targets) if not re.search(r'[\x00-\x20?#\x7f]', t)]
+        lines.append('srv %s %s %s' % (hx(conf.replace('@BASE@', '@FIX@')), ','.join(fixtures),
+                                       ','.join('%s:%s:-:-:ct' % (hx('x'), hx(t.replace('@BASE@', '@FIX@'))) for t in targets)))
+        meta.append((desc, files, routes, targets, canary))
+    im = ctx.impl(lines)
+    ctx.evaluations += len(lines)
+    # the model, per request: the route chosen by the routing rule, then StaticFs.directory_handler on the same tree
+    mlines, mref = [], []
+    for k, (desc, files, routes, targets, canary) in enumerate(meta):
+        for q, t in enumerate(targets):
+            r = next((r for r in routes if glob(r, t.replace('@BASE@', '@FIXBASE@'))), None)
+            if r is not None:
+                mlines.append('static directory %s %s %s' % (desc, hx(r), hx(t)))
+                mref.append((k, q))
+    decided = dict(zip(mref, ctx.model(mlines)))
+    for k, (line, (desc, files, routes, targets, canary), b) in enumerate(zip(lines, meta, im)):
+        ctx.count('kind:server-e2e')
+        got = b.split(',')
+        if len(got) != len(targets):
+            ctx.report({'line': line[:3000], 'kind': 'server-e2e'}, b[:300], 'one answer per request', cls='static-server',
+                       failing_input=b in ('PANIC', 'DIED', 'TIMEOUT'), what='the config-driven server did not answer: ' + b[:100])
+            continue
+        for q, (t, g) in enumerate(zip(targets, got)):
+            case = {'line': line[:3000], 'kind': 'server-e2e', 'routes': routes, 'target': t}
+            if g.startswith('200:body:'):
+                body = bytes.fromhex(g.split(':')[2])
+                if body not in files.values():
+                    ctx.report(case, g[:200], 'only files under the served directory', cls='static-escape', failing_input=True,
+                               what='the server returned bytes of a file outside the directory for %r' % t)
+                    continue
+            a = decided.get((k, q))
+            if a is None or '@BASE@' in t:
+                continue      # no route (cannot happen with /*), or the absolute path is only known to the harness
+            if a.startswith('200 '):
+                want = '200:body:%s:ct:%s' % (a.split('body=')[1], a.split('ct=')[1].split(' ')[0])
+            elif a.startswith('301 '):
+                want = '301:loc:' + a.split('loc=')[1]
+            else:
+                want = a.split(' ')[0]
+            ok = g == want or (want.isdigit() and g.startswith(want + ':'))
+            if not ok:
+                ctx.report(case, g[:200], want[:200], cls='static-server', failing_input=False,
+                           what='the config-driven server and the model (routing rule + directory_handler) differ on %r' % t)
+            elif not g.startswith('404'):
+                ctx.mark_nontrivial(line[:50] + t)
+    import shutil
+    shutil.rmtree(V + '/work/c04srv', ignore_errors=True)
+
+
 def run(ctx):
     rng = ctx.rng
     thorough = ctx.tier == 'thorough'
@@ -209,6 +299,8 @@ def run(ctx):
     ctx.tokio_twin([lines[i] for i in idx], [m[i] for i in idx], 'static-mismatch-tokio',
                    what='tokio static handler differs from the model')
     shutil.rmtree(V + '/work/c06', ignore_errors=True)
+    if not ctx.replay:
+        server_part(ctx)
     for k in (0, len(lines) // 2, len(lines) - 1):
         if 0 <= k < len(lines) and meta[k] is not None:
             ctx.sample({'handler': meta[k][0], 'route': meta[k][1], 'uri': meta[k][2], 'impl': im[k][:80]})
